@@ -232,26 +232,42 @@ class Engine(object):
         def forall_keys(I, ctx, d, fn):
             """forall k in keys(d): fn(k, d[k])"""
             dom, arr, kt, vt = M.dict_sym(I, ctx, I.resolve(ctx, d))
-            k = z3.Const(Z.fresh_name('qk'), kt.zsort)
-            body = I.call(ctx, self._specframe_for_lambda(fn), fn, [kt.wrap(k), vt.wrap(z3.Select(arr, k))], {})
+            k = z3.Const(self._qname(ctx, 'k%s' % kt.zsort), kt.zsort)
+            self._qenter(ctx)
+            try:
+                body = I.call(ctx, self._specframe_for_lambda(fn), fn, [kt.wrap(k), vt.wrap(z3.Select(arr, k))], {})
+            finally:
+                self._qleave(ctx)
             return VBool(z3.ForAll([k], z3.Implies(z3.IsMember(k, dom), I.truth(ctx, body))))
 
         @self.spec('forall_str')
         def forall_str(I, ctx, fn):
-            k = z3.Const(Z.fresh_name('qs'), Z.Str)
-            body = I.call(ctx, self._specframe_for_lambda(fn), fn, [VStr(k)], {})
+            k = z3.Const(self._qname(ctx, 's'), Z.Str)
+            self._qenter(ctx)
+            try:
+                body = I.call(ctx, self._specframe_for_lambda(fn), fn, [VStr(k)], {})
+            finally:
+                self._qleave(ctx)
             return VBool(z3.ForAll([k], I.truth(ctx, body)))
 
         @self.spec('exists_str')
         def exists_str(I, ctx, fn):
-            k = z3.Const(Z.fresh_name('qs'), Z.Str)
-            body = I.call(ctx, self._specframe_for_lambda(fn), fn, [VStr(k)], {})
+            k = z3.Const(self._qname(ctx, 's'), Z.Str)
+            self._qenter(ctx)
+            try:
+                body = I.call(ctx, self._specframe_for_lambda(fn), fn, [VStr(k)], {})
+            finally:
+                self._qleave(ctx)
             return VBool(z3.Exists([k], I.truth(ctx, body)))
 
         @self.spec('forall_int')
         def forall_int(I, ctx, lo, hi, fn):
-            k = z3.Int(Z.fresh_name('qi'))
-            body = I.call(ctx, self._specframe_for_lambda(fn), fn, [VInt(k)], {})
+            k = z3.Int(self._qname(ctx, 'i'))
+            self._qenter(ctx)
+            try:
+                body = I.call(ctx, self._specframe_for_lambda(fn), fn, [VInt(k)], {})
+            finally:
+                self._qleave(ctx)
             return VBool(z3.ForAll([k], z3.Implies(z3.And(k >= TInt.to_z(lo), k < TInt.to_z(hi)), I.truth(ctx, body))))
 
         @self.spec('forall_in')
@@ -259,9 +275,23 @@ class Engine(object):
             z, et = M.iterable_as_set(I, ctx, s)
             if z is None:
                 return VBool(True)
-            k = z3.Const(Z.fresh_name('qe'), et.zsort)
-            body = I.call(ctx, self._specframe_for_lambda(fn), fn, [et.wrap(k)], {})
+            k = z3.Const(self._qname(ctx, 'e%s' % et.zsort), et.zsort)
+            self._qenter(ctx)
+            try:
+                body = I.call(ctx, self._specframe_for_lambda(fn), fn, [et.wrap(k)], {})
+            finally:
+                self._qleave(ctx)
             return VBool(z3.ForAll([k], z3.Implies(z3.IsMember(k, z), I.truth(ctx, body))))
+
+    def _qname(self, ctx, kind):
+        d = getattr(ctx, 'qdepth', 0)
+        return 'q!%s!%d' % (kind, d)
+
+    def _qenter(self, ctx):
+        ctx.qdepth = getattr(ctx, 'qdepth', 0) + 1
+
+    def _qleave(self, ctx):
+        ctx.qdepth -= 1
 
     def _specframe_for_lambda(self, fn):
         fr = fn.closure if getattr(fn, 'closure', None) is not None else Frame(None, 'spec')
@@ -558,6 +588,13 @@ class Engine(object):
     def external_class_attr(self, ctx, fr, c, name, selfv, node, clsname):
         """Attribute found on an external base class of a repo class."""
         key = '%s.%s' % (c, name)
+        if name == '__init__' and c.startswith('builtins.') and selfv is not None and \
+                (c == 'builtins.object' or self.classes.static_sub(c, 'builtins.BaseException')):
+            def exc_init(I, ctx, self_, *args, **kwargs):
+                h = ctx.heap[self_.rid]
+                h.fields['args'] = VTuple(list(args))
+                return NONE
+            return VBound(selfv, VSpecFn(exc_init, key))
         m = self.externals.get(key)
         if m is not None:
             if selfv is None:
